@@ -177,7 +177,7 @@ Qed.
 (* main theorem: for every layout and every history that meets the executable guard *)
 Theorem works_under_guard : forall l h, guard l h = true -> Works (run l h).
 Proof.
-  intros l h Hg. unfold guard, guard_F11a, guard_F11b, guard_F11c in Hg.
+  intros l h Hg. unfold guard, wf_layout, guard_F11b, guard_F11c in Hg.
   apply andb_true_iff in Hg. destruct Hg as [Hg Hc].
   apply andb_true_iff in Hg. destruct Hg as [Hs Hb].
   apply J_Works. unfold run. apply J_run_from; auto. apply J_init.
@@ -202,7 +202,7 @@ Qed.
 Theorem works_shared_outside : forall l h,
   is_shared l = true -> core_inside_client l = None -> Works (fold_left (step l) h init).
 Proof.
-  intros l h Hs Hn. apply (works_under_guard l h). unfold guard, guard_F11a, guard_F11b, guard_F11c.
+  intros l h Hs Hn. apply (works_under_guard l h). unfold guard, wf_layout, guard_F11b, guard_F11c.
   rewrite Hs, never_b_outside, never_c_outside by exact Hn. reflexivity.
 Qed.
 
@@ -216,18 +216,16 @@ Proof.
   - apply forallb_forall. intros c Hin. apply Hc. exact Hin.
 Qed.
 
-Lemma refuted_F11a :
-  guard_F11a l_F11a = false /\ guard_F11b l_F11a h_F11a = true /\ guard_F11c l_F11a h_F11a = true
-  /\ ~ Inv (run l_F11a h_F11a).
+(* regression (F11a fixed): core "a.b.core", c1 declares 404, then c2 declares 409: both keep working *)
+Lemma fixed_F11a :
+  guard l_F11a h_F11a = true /\ Works (run l_F11a h_F11a)
+  /\ aliases (run l_F11a h_F11a) = Some [404; 409].
 Proof.
-  repeat split; try (vm_compute; reflexivity).
-  intro H. assert (Hx : In 404 (aliases_of (run l_F11a h_F11a))).
-  { apply (H c1 [404]); vm_compute; auto. }
-  vm_compute in Hx. destruct Hx as [Hx|[]]. discriminate.
+  split; [vm_compute; reflexivity|]. split; [apply works_under_guard; vm_compute; reflexivity | vm_compute; reflexivity].
 Qed.
 
 Lemma refuted_F11b :
-  guard_F11a l_in = true /\ guard_F11b l_in h_F11b = false /\ guard_F11c l_in h_F11b = true
+  wf_layout l_in = true /\ guard_F11b l_in h_F11b = false /\ guard_F11c l_in h_F11b = true
   /\ ~ Inv (run l_in h_F11b).
 Proof.
   repeat split; try (vm_compute; reflexivity).
@@ -237,7 +235,7 @@ Proof.
 Qed.
 
 Lemma refuted_F11c :
-  guard_F11a l_in = true /\ guard_F11b l_in h_F11c = true /\ guard_F11c l_in h_F11c = false
+  wf_layout l_in = true /\ guard_F11b l_in h_F11c = true /\ guard_F11c l_in h_F11c = false
   /\ Inv (run l_in h_F11c) /\ ~ Claimed_present (run l_in h_F11c).
 Proof.
   repeat split; try (vm_compute; reflexivity).
